@@ -34,6 +34,10 @@ C17(r) ==
       names == NamesOf(c, r.dev, r.short) \cup NamesOf(t, r.dev, r.short)
   IN
   [ no_exception |-> TRUE,
+    \* the iteration numbers the comparison selects by: every device activity carries the iteration of the host call with its correlation id
+    \* (also when one call started several activities)
+    input_iterations |-> \A side \in {c, t} : \A x \in side.rows : (x.stream > 0 /\ x.corr >= 0) =>
+                            \A h \in side.rows : (h.rank = x.rank /\ h.stream = -1 /\ h.corr = x.corr /\ h.name \notin SyncNames) => x.iter = h.iter,
     one_row_per_name |-> TableNames(r) = names /\ Len(r.table) = Cardinality(names),
     counts       |-> \A n \in TableNames(r) \cap names :
                         /\ RowOfName(r, n).cc = CountOf(c, r.dev, r.short, n)
